@@ -5,11 +5,17 @@ Extracted (tables, not algorithms):
     (cross-checked against the alternation inside the compiled ADMONITION_RE / END_RE patterns)
   * dataclasses.fields(ford.settings.EntitySettings) -> Ford.Gen.entityFields (read_metadata's one-line heuristic)
   * AdmonitionPreprocessor.INDENT_SIZE               -> Ford.Gen.admIndentSize
+  * the filter of FortranSourceFile.markdownable_items (which registered entities Project.markdown converts):
+    the attribute names A of its `not hasattr(item, A)` conjuncts       -> Ford.Gen.markdownSkipAttrs
+  * every attribute that a `correlate` method of ford/sourceform.py assigns on an object other than `self`
+    (correlate runs between parsing and the conversion)                  -> Ford.Gen.correlateSetAttrs
 A construct that cannot be found raises (counts as "tie broken").
 """
 from __future__ import annotations
 
+import ast
 import dataclasses
+import inspect
 import re
 
 from harness import common
@@ -27,8 +33,79 @@ def _chars(s: str) -> str:
     return "[" + ", ".join(one(c) for c in s) + "]"
 
 
+def _conversion_filter(sf):
+    """The condition under which `FortranSourceFile.markdownable_items` keeps a registered entity: must be a
+    conjunction of `isinstance(item, FortranBase)` and `not hasattr(item, "<attr>")` terms inside a loop over
+    `self._to_be_markdowned`; returns the <attr>s."""
+    prop = inspect.getattr_static(sf.FortranSourceFile, "markdownable_items")
+    fn = prop.fget if isinstance(prop, property) else prop
+    tree = ast.parse(textwrap_dedent(inspect.getsource(fn)))
+    loops = [n for n in ast.walk(tree) if isinstance(n, ast.For) and isinstance(n.iter, ast.Attribute)
+             and n.iter.attr == "_to_be_markdowned"]
+    if len(loops) != 1 or not isinstance(loops[0].target, ast.Name):
+        raise ValueError("markdownable_items no longer loops once over self._to_be_markdowned")
+    var = loops[0].target.id
+    ifs = [n for n in loops[0].body if isinstance(n, ast.If)]
+    others = [n for n in loops[0].body if not isinstance(n, (ast.If, ast.Expr))]
+    if len(ifs) > 1 or others or any(i.orelse for i in ifs):
+        raise ValueError("markdownable_items: loop body is not a single `if <condition>: items.append(item)`")
+    if not ifs:
+        return []
+    cond = ifs[0].test
+    terms = cond.values if isinstance(cond, ast.BoolOp) and isinstance(cond.op, ast.And) else [cond]
+    skip = []
+    for t in terms:
+        if isinstance(t, ast.Call) and getattr(t.func, "id", None) == "isinstance" and \
+                isinstance(t.args[0], ast.Name) and t.args[0].id == var and getattr(t.args[1], "id", "") == "FortranBase":
+            continue
+        if isinstance(t, ast.UnaryOp) and isinstance(t.op, ast.Not) and isinstance(t.operand, ast.Call) and \
+                getattr(t.operand.func, "id", None) == "hasattr" and len(t.operand.args) == 2 and \
+                isinstance(t.operand.args[0], ast.Name) and t.operand.args[0].id == var and \
+                isinstance(t.operand.args[1], ast.Constant) and isinstance(t.operand.args[1].value, str):
+            skip.append(t.operand.args[1].value)
+            continue
+        raise ValueError("markdownable_items: unrecognised term in the filter: " + ast.unparse(t))
+    return skip
+
+
+def textwrap_dedent(src):
+    import textwrap
+    return textwrap.dedent(src)
+
+
+def _correlate_set_attrs(sf):
+    """Attributes assigned (x.attr = ..., x.attr += ..., setattr(x, "attr", ...)) on an object other than `self`
+    inside any method named `correlate` of ford/sourceform.py."""
+    tree = ast.parse(inspect.getsource(sf))
+    out, n_methods = [], 0
+    for cls in (n for n in ast.walk(tree) if isinstance(n, ast.ClassDef)):
+        for f in cls.body:
+            if not (isinstance(f, ast.FunctionDef) and f.name == "correlate"):
+                continue
+            n_methods += 1
+            for n in ast.walk(f):
+                tg = []
+                if isinstance(n, ast.Assign):
+                    tg = n.targets
+                elif isinstance(n, (ast.AugAssign, ast.AnnAssign)):
+                    tg = [n.target]
+                elif isinstance(n, ast.Call) and getattr(n.func, "id", None) == "setattr" and len(n.args) >= 2 and \
+                        isinstance(n.args[1], ast.Constant) and not (isinstance(n.args[0], ast.Name) and n.args[0].id == "self"):
+                    out.append(str(n.args[1].value))
+                flat = []
+                for x in tg:
+                    flat += list(x.elts) if isinstance(x, (ast.Tuple, ast.List)) else [x]
+                for x in flat:
+                    if isinstance(x, ast.Attribute) and not (isinstance(x.value, ast.Name) and x.value.id == "self"):
+                        out.append(x.attr)
+    if n_methods < 3:
+        raise ValueError("correlate methods of ford/sourceform.py not found")
+    return sorted(set(out))
+
+
 def extract():
     common.import_ford()
+    import ford.sourceform as SF
     import ford.md_admonition as A
     import ford.settings as S
 
@@ -52,7 +129,12 @@ def extract():
     fields = [f.name for f in dataclasses.fields(S.EntitySettings)]
     if "author" not in fields or "summary" not in fields:
         raise ValueError("EntitySettings fields not found")
-    return {"types": list(types.items()), "fields": fields, "indent": indent}
+    skip = _conversion_filter(SF)
+    cset = _correlate_set_attrs(SF)
+    for a in skip + cset:
+        if not re.fullmatch(r"[A-Za-z_][A-Za-z0-9_]*", a):
+            raise ValueError(f"unexpected attribute name {a!r}")
+    return {"types": list(types.items()), "fields": fields, "indent": indent, "skip_attrs": skip, "correlate_set": cset}
 
 
 def render(t) -> str:
@@ -65,6 +147,11 @@ def render(t) -> str:
             f"def admIndentSize : Nat := {t['indent']}", "",
             "/-- names of the `EntitySettings` fields -/", "def entityFields : List Str := ["]
     out.append(",\n".join(f"  {_chars(f)}" for f in t["fields"]))
+    out += ["]", "", "/-- `FortranSourceFile.markdownable_items`: a registered entity is converted unless it has one of these attributes -/",
+            "def markdownSkipAttrs : List Str := [" + ", ".join(_chars(a) for a in t["skip_attrs"]) + "]", "",
+            "/-- attributes that some `correlate` method assigns on an object other than `self` -/",
+            "def correlateSetAttrs : List Str := ["]
+    out.append(",\n".join(f"  {_chars(a)}" for a in t["correlate_set"]))
     out += ["]", "", "end Ford.Gen", ""]
     return "\n".join(out)
 
